@@ -132,19 +132,23 @@ func do10(e *encode.Encoder, l int, r *run.Rng, o *gen.Opts) (op rec.Op, recorde
 	switch l {
 	case l10Reset:
 		vb, pal := ivg.DefaultViewBox, ivg.DefaultPalette
-		switch r.Intn(6) {
+		// the viewBox and the suggested palette are chosen independently: either,
+		// both or neither differs from the default (none, one or two metadata chunks)
+		switch r.Intn(5) {
 		case 1:
 			vb = ivg.ViewBox{MinX: 0, MinY: 0, MaxX: 48, MaxY: 48}
 		case 2:
-			pal[0] = color.RGBA{0x10, 0x20, 0x30, 0x40}
-		case 3:
 			// boxes on the boundary of what a decoder accepts: no extent in x, in y or in both
 			x, y := float32(r.Range(-9, 9)), float32(r.Range(-9, 9))
 			vb = ivg.ViewBox{MinX: x, MinY: y, MaxX: x + float32(r.Pick(0, 0, 5)), MaxY: y + float32(r.Pick(0, 7, 0))}
-		case 4:
+		case 3:
 			// finite, ordered bounds whose difference is beyond float32
 			vb = ivg.ViewBox{MinX: -2.5e38, MinY: -1, MaxX: 2.5e38, MaxY: 1}
-		case 5:
+		}
+		switch r.Intn(4) {
+		case 1:
+			pal[0] = color.RGBA{0x10, 0x20, 0x30, 0x40}
+		case 2:
 			// a palette that mixes colours of the different encodable classes in any order
 			pal = gen.Palette(r)
 			if r.Bool() {
